@@ -47,7 +47,7 @@ type WStep struct {
 	Fail bool `json:"f"`
 	// E selects the error value: 0 the harness' own error, 1 io.ErrShortWrite
 	// (what bufio.Writer and io.MultiWriter report), 2 io.ErrClosedPipe,
-	// 3 io.EOF.
+	// 3 io.EOF, 4 lz.ErrFullBuffer, 5 lz.ErrEmptyBuffer.
 	E int `json:"e,omitempty"`
 }
 
@@ -60,6 +60,12 @@ func writerErr(e int) error {
 		return io.ErrClosedPipe
 	case 3:
 		return io.EOF
+	case 4:
+		// the writer is a ParserBuffer (decode-to-reparse pipeline): its
+		// error is the sentinel the decoder uses internally
+		return lz.ErrFullBuffer
+	case 5:
+		return lz.ErrEmptyBuffer
 	}
 	return ErrInjected
 }
@@ -807,6 +813,16 @@ func (r *DRun) decCall(i int, name string, argBytes int, f func()) bool {
 	return false
 }
 
+// surfaced: a call during which the writer failed must return the writer's
+// error (C18), not nil.
+func (r *DRun) surfaced(i int, name string, err error) bool {
+	if err == nil && r.w.failedInCall {
+		r.failf(i, "wrong-error", "writer-error-not-surfaced", "the writer failed during Decoder.%s (it returned %v) but the call returned a nil error", name, r.w.lastErr)
+		return false
+	}
+	return true
+}
+
 func (r *DRun) prefixCheck(i int) {
 	m := &r.model
 	a := r.w.accepted
@@ -864,7 +880,7 @@ func (r *DRun) stepDecoder(i int, op *DOp) {
 	case "byte":
 		for try := 0; ; try++ {
 			var err error
-			if !r.decCall(i, "WriteByte", 1, func() { err = d.WriteByte(op.Data[0]) }) {
+			if !r.decCall(i, "WriteByte", 1, func() { err = d.WriteByte(op.Data[0]) }) || !r.surfaced(i, "WriteByte", err) {
 				return
 			}
 			if err == nil {
@@ -872,7 +888,7 @@ func (r *DRun) stepDecoder(i int, op *DOp) {
 				break
 			}
 			if !w.failedInCall || err != w.lastErr {
-				r.failf(i, errCheck(w), "WriteByte-error", "Decoder.WriteByte returned %v (writer failed in call: %v)", err, w.failedInCall)
+				r.failf(i, errCheck(w, err), "WriteByte-error", "Decoder.WriteByte returned %v (writer failed in call: %v)", err, w.failedInCall)
 				return
 			}
 			st.Inc("calls_with_writer_fault")
@@ -892,6 +908,9 @@ func (r *DRun) stepDecoder(i int, op *DOp) {
 				return
 			}
 			scribble(arg)
+			if !r.surfaced(i, "Write", err) {
+				return
+			}
 			if n < 0 || n > len(p) {
 				r.failf(i, "count-n", "Decoder.Write-n", "Decoder.Write of %d bytes returned n=%d", len(p), n)
 				return
@@ -906,7 +925,7 @@ func (r *DRun) stepDecoder(i int, op *DOp) {
 				break
 			}
 			if !w.failedInCall || err != w.lastErr {
-				r.failf(i, errCheck(w), "Decoder.Write-error", "Decoder.Write(%d bytes) returned n=%d err=%v (writer failed in call: %v); WindowSize=%d BufferSize=%d", len(p), n, err, w.failedInCall, r.W, r.B)
+				r.failf(i, errCheck(w, err), "Decoder.Write-error", "Decoder.Write(%d bytes) returned n=%d err=%v (writer failed in call: %v); WindowSize=%d BufferSize=%d", len(p), n, err, w.failedInCall, r.W, r.B)
 				return
 			}
 			st.Inc("calls_with_writer_fault")
@@ -935,7 +954,7 @@ func (r *DRun) stepDecoder(i int, op *DOp) {
 					argBytes += int(s.MatchLen)
 				}
 			}
-			if !r.decCall(i, "WriteBlock", argBytes, func() { n, k, l, err = d.WriteBlock(lz.Block{Sequences: sa, Literals: la}) }) {
+			if !r.decCall(i, "WriteBlock", argBytes, func() { n, k, l, err = d.WriteBlock(lz.Block{Sequences: sa, Literals: la}) }) || !r.surfaced(i, "WriteBlock", err) {
 				return
 			}
 			sub := &DOp{K: "block", Data: lits, Seqs: nil, Hostile: op.Hostile}
@@ -957,7 +976,7 @@ func (r *DRun) stepDecoder(i int, op *DOp) {
 				break
 			}
 			if !w.failedInCall || err != w.lastErr {
-				r.failf(i, errCheck(w), "Decoder.WriteBlock-error", "Decoder.WriteBlock returned %v (writer failed in call: %v)", err, w.failedInCall)
+				r.failf(i, errCheck(w, err), "Decoder.WriteBlock-error", "Decoder.WriteBlock returned %v (writer failed in call: %v)", err, w.failedInCall)
 				return
 			}
 			st.Inc("calls_with_writer_fault")
@@ -996,7 +1015,7 @@ func (r *DRun) stepDecoder(i int, op *DOp) {
 	case "flush":
 		for try := 0; ; try++ {
 			var err error
-			if !r.decCall(i, "Flush", 0, func() { err = d.Flush() }) {
+			if !r.decCall(i, "Flush", 0, func() { err = d.Flush() }) || !r.surfaced(i, "Flush", err) {
 				return
 			}
 			if err == nil {
@@ -1008,7 +1027,7 @@ func (r *DRun) stepDecoder(i int, op *DOp) {
 				break
 			}
 			if !w.failedInCall || err != w.lastErr {
-				r.failf(i, errCheck(w), "Flush-error", "Flush returned %v", err)
+				r.failf(i, errCheck(w, err), "Flush-error", "Flush returned %v", err)
 				return
 			}
 			st.Inc("calls_with_writer_fault")
@@ -1114,9 +1133,14 @@ func pendClass(p, b, w int) string {
 	}
 }
 
-func errCheck(w *planWriter) string {
+func errCheck(w *planWriter, err error) string {
 	if w.failedInCall {
 		return "wrong-error"
+	}
+	if w.lastErr != nil && err == w.lastErr {
+		// the writer did not fail in this call: the decoder hands out the
+		// error of an earlier call again
+		return "stale-writer-error"
 	}
 	return "refused-valid"
 }
@@ -1147,11 +1171,21 @@ type DGen struct {
 
 func genLits(r *rand.Rand, n int) []byte {
 	b := make([]byte, n)
-	alpha := []int{2, 4, 256}[r.Intn(3)]
+	alpha := []int{2, 4, 256, 0, 1}[r.Intn(5)]
 	for i := range b {
-		if alpha == 256 {
+		switch alpha {
+		case 256:
 			b[i] = byte(r.Intn(256))
-		} else {
+		case 0:
+			// zero-heavy: 0x00 equals freshly allocated memory
+			if r.Intn(4) > 0 {
+				b[i] = 0
+			} else {
+				b[i] = byte(1 + r.Intn(3))
+			}
+		case 1:
+			b[i] = []byte{0x00, 0xff}[r.Intn(2)]
+		default:
 			b[i] = 'a' + byte(r.Intn(alpha))
 		}
 	}
@@ -1312,7 +1346,7 @@ func GenDOps(r *rand.Rand, g *DGen) []DOp {
 			if g.SUT == "buffer" {
 				op := DOp{K: "writeto"}
 				if r.Intn(3) == 0 {
-					op.F = &WStep{Acc: r.Intn(5), Fail: true, E: r.Intn(4)}
+					op.F = &WStep{Acc: r.Intn(5), Fail: true, E: r.Intn(6)}
 				}
 				ops = append(ops, op)
 			} else {
